@@ -79,7 +79,7 @@ func genFECase(seed uint64, i int) feCase {
 	kinds := []string{"malformed-go-version", "unknown-failOn", "rules-pattern-without-match", "empty-selection", "empty-selection-by-disable", "unparsable-parameter",
 		"torn-write", "lost-write", "lost-package", "flipped-identifier", "mixed-package-clauses", "none",
 		"torn-write-at-zero", "torn-in-package-clause", "flipped-keyword", "comment-only-file", "torn-test-file",
-		"rules-valid-then-pattern-without-match", "unknown-failOn-with-other-checkers"}
+		"rules-valid-then-pattern-without-match", "unknown-failOn-with-other-checkers", "non-positive-concurrency"}
 	c.Fault = kinds[(i/len(frontends))%len(kinds)]
 	switch c.Fault {
 	case "malformed-go-version":
@@ -94,6 +94,10 @@ func genFECase(seed uint64, i int) feCase {
 		c.Class, c.Flags, c.Names = "config", []string{"-enable=ruleguard,assignOp", "-disable=", "-@ruleguard.rules=rules.go,nomatch-*.go"}, []string{"nomatch-*.go"}
 	case "unknown-failOn-with-other-checkers":
 		c.Class, c.Flags, c.Names = "config", []string{"-enable=ruleguard,assignOp,switchTrue", "-disable=", "-@ruleguard.rules=rules.go", "-@ruleguard.failOn=bogus"}, []string{"bogus"}
+	case "non-positive-concurrency":
+		// how many checkers may run at once: zero or fewer is not a configuration anything can run under
+		vs := []string{"0", "-1", "-8"}
+		c.Class, c.Flags, c.Names = "config", []string{"-concurrency=" + vs[r.Intn(len(vs))]}, []string{"concurrency"}
 	case "empty-selection":
 		c.Class, c.Flags, c.Names = "config", []string{"-enable=nosuchchecker", "-disable="}, []string{"empty", "nosuchchecker"}
 	case "empty-selection-by-disable":
@@ -201,7 +205,7 @@ func runFrontend(bi *buildInfo, c *feCase, ws string) feRun {
 	to := false
 	select {
 	case err = <-done:
-	case <-time.After(120 * time.Second):
+	case <-time.After(90 * time.Second):
 		cmd.Process.Kill()
 		<-done
 		to = true
@@ -242,7 +246,7 @@ func judgeFE(c *feCase, one, many feRun) []simapi.Violation {
 	for k, r := range []feRun{one, many} {
 		which := []string{"1 package", fmt.Sprintf("%d packages", c.NPkgs)}[k]
 		if r.TimedOut {
-			add("frontend-hang", which+": no exit within 120s")
+			add("frontend-hang", which+": no exit within 90s (killed)")
 			return vs
 		}
 		if loc := panicRE.FindStringIndex(r.Output); loc != nil {
